@@ -830,3 +830,96 @@ def c16 (cfg : Cfg) (tr : List TE) : List Viol :=
       [{ sig := "retransmitted-beyond-budget", detail := s!"timer-copies={nt} direct={nd}" : Viol }] else []
 
 end Bisquitt.Spec
+
+namespace Bisquitt.Spec
+open Bisquitt Bisquitt.Gw
+
+/-! ## C12 / C34 — the broker's keep-alive -/
+
+/-- times of everything the gateway wrote to the broker -/
+def mqOutTimes (tr : List TE) : List Nat := tr.filterMap fun e => match e with
+  | .out t (.mq _) => some t
+  | _ => none
+
+/-- (time, datagram) of every decodable client datagram -/
+def clientDatagrams (tr : List TE) : List (Nat × Pkt) := tr.filterMap fun e => match e with
+  | .inp t (.sn b) => (match decode (b.take Gen.MaxPacketLen) with | .ok (_, p) => some (t, p) | _ => none)
+  | _ => none
+
+/-- C12 on one trace.  As long as the client meets its own obligations (a datagram within every
+    keep-alive period while active, a wake-up within every announced sleep), the gateway writes
+    something to the broker within every 1.5 × keep-alive window. -/
+def c12 (tr : List TE) (tEnd : Nat) : List Viol :=
+  let sts := steps tr
+  -- the accepted CONNECT: keep-alive in ms, and when the broker accepted
+  let (_, info) := sts.foldl (fun (acc : Hist × Option (Nat × Nat)) s =>
+    let (h, info) := acc
+    let h' := h.afterStep s
+    let info := match info with
+      | some x => some x
+      | none => if !h.brokerAccepted && h'.brokerAccepted then some (h'.keepAlive.toNat * 1000, s.t) else none
+    (h', info)) ({ endedAt := endedAtOf tr }, none)
+  match info with
+  | none => []
+  | some (ka, t0) =>
+    if ka = 0 then [] else
+    let tStop := ((endedAtOf tr).getD tEnd)
+    let cds := (clientDatagrams tr).filter fun (t, _) => t ≥ t0
+    -- sleep intervals: DISCONNECT(d) at ts … next PINGREQ / CONNECT / DISCONNECT at tw
+    let sleeps : List (Nat × Nat × Nat) := cds.filterMap fun (t, p) => match p with
+      | .disconnect d => if d == 0 then none else
+          let tw := ((cds.find? fun (t2, p2) => t2 > t && (match p2 with | .pingreq _ | .connect .. | .disconnect _ => true | _ => false)).map (·.1)).getD tStop
+          some (t, tw, d.toNat * 1000)
+      | _ => none
+    let asleepAt := fun (t : Nat) => sleeps.any fun (ts, tw, _) => ts ≤ t && t < tw
+    -- first moment the client breaks its obligations (then the property says nothing any more)
+    let times := t0 :: cds.map (·.1)
+    let breaksActive := ((times.zip (times.drop 1 ++ [tStop])).filterMap fun (a, b) =>
+      if b > a + ka && !asleepAt a && !asleepAt (a + ka) then some (a + ka) else none)
+    let breaksSleep := sleeps.filterMap fun (ts, tw, d) => if tw > ts + d then some (ts + d) else none
+    let tOk := (breaksActive ++ breaksSleep).foldl min tStop
+    let outs := t0 :: (mqOutTimes tr).filter fun t => t > t0
+    let gaps := outs.zip (outs.drop 1 ++ [tOk])
+    gaps.flatMap fun (a, b) =>
+      let lim := a + ka * 3 / 2
+      if b > lim && lim < tOk then
+        let inGap := cds.filter fun (t, _) => a < t && t ≤ lim
+        -- the sleep (if any) the client is in when the 1.5 × keep-alive window runs out
+        let sl := sleeps.find? fun (ts, tw, _) => ts ≤ lim && lim < tw
+        let kind := match sl with
+          | some (ts, _, d) =>
+            if d ≤ ka then "sleep-not-longer-than-keep-alive-has-no-pinger"
+            else if a < ts + ka then "first-sleep-ping-a-full-keep-alive-after-falling-asleep"
+            else "sleep-pinger-silent"
+          | none => if inGap.isEmpty then "unexplained" else "client-traffic-answered-locally"
+        [{ sig := s!"broker-starved/{kind}", detail := s!"no packet to the broker from t={a} to t={min b tOk} keep-alive={ka}" }]
+      else []
+
+/-- C34 (gateway side) on one trace: once the client has vanished, the gateway stops talking to
+    the broker — no later than the end of the announced sleep (its pinger) plus the retry budget —
+    so that a keep-alive-enforcing broker drops the connection; and the broker's EOF ends the session. -/
+def c34 (cfg : Cfg) (tr : List TE) (tEnd : Nat) : List Viol :=
+  let cds := clientDatagrams tr
+  match cds.getLast? with
+  | none => []
+  | some (tv, lastPkt) =>
+    let budget := (cfg.retryCount + 1) * cfg.retryDelay
+    -- an announced sleep keeps the pinger running until its end
+    let sleepEnd := match lastPkt with
+      | .disconnect d => tv + d.toNat * 1000
+      | _ => ((cds.filterMap fun (t, p) => match p with
+          | .disconnect d => if d != 0 then some (t + d.toNat * 1000) else none
+          | _ => none).foldl max tv)
+    let quietFrom := max tv sleepEnd + budget + Gen.connTimeout
+    let late := (tr.filterMap fun e => match e with
+      | .out t (.mq p) => if t > quietFrom then some (t, p) else none
+      | _ => none)
+    -- outputs that answer a broker packet are not the gateway's own initiative
+    let brokerIn : List Nat := tr.filterMap fun e => match e with | .inp t (.mq _) => some t | _ => none
+    let own := late.filter fun (t, _) => !brokerIn.contains t
+    let _ := tEnd
+    match own.head? with
+    | some (t, _) => [{ sig := "broker-kept-alive-for-a-vanished-client", detail := s!"client silent since t={tv}, packet to the broker at t={t}" }]
+    | none => []
+
+end Bisquitt.Spec
